@@ -2,6 +2,7 @@
 import re
 
 import absint
+import os
 import facts
 import q
 from facts import norm, short, strip_refs, is_const
@@ -101,6 +102,8 @@ def run(ctx):
                 p = t['callee'].get('path') or ''
                 if short(p) == 'from_reader' and p.split('::')[0] in ('json', 'gambit', 'auto'):
                     return p.split('::')[0]
+                if short(p) == 'from_str' and p.split('::')[0] in ('json', 'gambit'):
+                    return 'auto'       # content detection spliced into main (the auto module merged into another): it starts by trying a parser on the text
                 if short(p) == 'solve' and 'Game' in p:
                     return 'no-parser'
             return None
@@ -130,6 +133,14 @@ def run(ctx):
         cs = [(bi, p) for bi, t, p in af.calls() if short(p) == 'from_str' and p.split('::')[0] in ('json', 'gambit')]
         ok = len(cs) == 2 and cs[0][1].startswith('json::') and cs[1][1].startswith('gambit::') and \
             any(c['kind'] == 'variant' and c['variants'] == ['Err'] for c in af.conds(cs[1][0])) and not af.conds(cs[0][0])
+        if not ok and len(cs) == 1 and cs[0][1].startswith('json::') and not af.conds(cs[0][0]):
+            # `json::from_str(x).or_else(|_| gambit::from_str(x))`: the second attempt sits in the closure or_else runs on Err
+            for bi, t, e in q.calls_named(af, 'or_else'):
+                if len(e[2]) == 2 and q.find_sub(e[2][0], lambda s_: s_[0] == 'call' and s_[1].startswith('json::') and short(s_[1]) == 'from_str') is not None:
+                    cf_, _ = q.closure_of(b, e[2][1])
+                    if cf_ is not None and [p_.split('::')[0] for _, _, p_ in cf_.calls() if short(p_) == 'from_str'] == ['gambit']:
+                        ok = True
+                        cs = cs + [(bi, 'gambit::from_str (in the or_else closure)')]
         ctx.verdict(ok, rule, rule + ':auto-order', 'content detection tries JSON first and Gambit only on its Err edge', af.where(cs[0][0]) if cs else af.where(0), 'order: %s' % [p for _, p in cs])
 
     # ---------------- (2) wiring
@@ -201,6 +212,14 @@ def run(ctx):
             extra.append('%s(%s, %s) edge %s' % (c['kind'], facts.show(c['a'])[:40], facts.show(c['b'])[:30] if c.get('b') is not None else '', c.get('truth')))
         ctx.verdict(not extra, rule, rule + ':clip-unconditional', 'with a clip threshold the pruned profile is always evaluated and compared: the clip step is guarded by nothing but -c itself', m.where(bi),
                     'guards on the truncate call: %s' % extra, breaks='the pruned profile is not printed although its regret is strictly lower (e.g. when -r was reached)')
+        # the clone is evaluated *after* it has been truncated
+        tl = m.root_place(t['args'][0]) if t['args'][0]['o'] in ('copy', 'move') else None
+        if tl is not None and tl[0][0] == 'var':
+            gi = [(bj, tj) for bj, tj, ej in q.calls_named(m, 'get_info') if tj['args'] and tj['args'][0]['o'] in ('copy', 'move') and (m.root_place(tj['args'][0]) or ((None, None),))[0] == tl[0]]
+            if gi:
+                early = [m.where(bj) for bj, tj in gi if not m.dominates(bi, bj)]
+                ctx.verdict(not early, rule, rule + ':evaluated-after-truncation', 'the pruned profile is evaluated after truncate() has been applied to it', m.where(bi),
+                            '%d evaluation(s) of the truncated clone; not dominated by the truncate call: %s' % (len(gi), early), breaks='the "pruned" regret is the unpruned one: the clipped profile is never (or always) printed')
         x = strip_refs(e[2][1])
         ctx.verdict(x[0] == 'field' and x[2] == 'clip_threshold', rule, rule + ':clip-threshold', 'truncate() gets -c (args.clip_threshold)', m.where(bi), 'argument %s' % facts.show(x))
 
@@ -272,8 +291,8 @@ def run(ctx):
         # assignments on the true edge: strategies := pruned clone, info := its evaluation; none on the false edge
         assigned_true, assigned_false = {}, {}
         for bi, si, st in m.assigns():
-            if st['pl']['p'] or not m.local_name(st['pl']['l']):
-                continue
+            if st['pl']['p'] or not (m.local_name(st['pl']['l']) or (m.locals[st['pl']['l']]['ty'].startswith(('cfr::Strategies<', 'Strategies<')) and len(m.defs.get(st['pl']['l'], [])) > 1)):
+                continue        # (a spliced helper's `mut` parameter has no name of its own)
             for cc in m.conds(bi):
                 if cc['switch'] == s:
                     (assigned_true if cc['truth'] else assigned_false)[st['pl']['l']] = norm(m.rvalue_expr(st['rv'], bi))
@@ -294,7 +313,7 @@ def run(ctx):
                     if cc['switch'] == s and cc.get('truth') in (True, False):
                         e_ = m.rvalue_expr(rv, bi)
                         pairs[cc['truth']].append((norm(e_[2][0]), norm(e_[2][1])))
-        if len(pairs[True]) == 1 and len(pairs[False]) == 1:
+        if len(pairs[True]) == 1 and len(pairs[False]) == 1 and not (good and not assigned_false):
             def obj_eq(x, y):
                 # the profile expression y (from eval_of) and the tuple's first component x denote the same object
                 return x == y or (y is not None and not isinstance(y, set) and (x == y or facts.show(x) == facts.show(y)))
@@ -307,7 +326,10 @@ def run(ctx):
             for l_, ds_ in m.defs.items():
                 if len(ds_) == 2 and all(d[0] == 'assign' and d[3]['r'] == 'agg' for d in ds_):
                     pair_local = l_
-        ctx.verdict(bool(good) and not assigned_false, rule, rule + ':pair-replaced-together', 'on the true edge the strategies become the truncated clone and the info becomes *its* evaluation; on the false edge nothing changes',
+        if not good and not assigned_true and not assigned_false and not tuple_form:
+            ctx.anchor_lost(rule, 'main: what replaces the profile and its evaluation when the pruned one is better', 'neither assignments nor a pair on the two edges of the comparison')
+        else:
+          ctx.verdict(bool(good) and not assigned_false, rule, rule + ':pair-replaced-together', 'on the true edge the strategies become the truncated clone and the info becomes *its* evaluation; on the false edge nothing changes',
                     m.where(s), 'true edge assigns %s; false edge assigns %s' % ({m.local_name(k): facts.show(v) for k, v in assigned_true.items()}, {m.local_name(k): facts.show(v) for k, v in assigned_false.items()}),
                     breaks='the printed utilities / regrets belong to another profile than the printed strategies')
         # the output uses exactly these two locals
@@ -321,6 +343,16 @@ def run(ctx):
                 continue
             uses_info = all(q.find_sub(e, lambda x: x == ('var', info_l, m.local_name(info_l))) is not None for k, e in fields.items() if not k.endswith('_strategy'))
             uses_strat = all(q.find_sub(e, lambda x: x == ('var', strat_l, m.local_name(strat_l))) is not None for k, e in fields.items() if k.endswith('_strategy'))
+            if not (uses_info and uses_strat):
+                # evidence of a mix-up: a field reads *another* evaluation / profile local; otherwise the values travel in a
+                # way the rule does not follow (returned from a spliced helper as a pair)
+                def other_(e_, want_l, tyname):
+                    return [y for y in facts.walk(e_) if y[0] == 'var' and y[1] != want_l and m.local_name(y[1]) and tyname in m.locals[y[1]]['ty'] and 'Info' in tyname or
+                            (y[0] == 'var' and y[1] != want_l and m.local_name(y[1]) and tyname == 'Strategies<' and m.locals[y[1]]['ty'].startswith(('cfr::Strategies<', 'Strategies<')))]
+                mixed = any(other_(e, info_l, 'StrategiesInfo') for k, e in fields.items() if not k.endswith('_strategy')) or any(other_(e, strat_l, 'Strategies<') for k, e in fields.items() if k.endswith('_strategy'))
+                if not mixed:
+                    ctx.anchor_lost(rule, 'main: where the Output fields read the selected pair from', 'info: %s strategies: %s' % (uses_info, uses_strat))
+                    continue
             ctx.verdict(uses_info and uses_strat, rule, rule + ':output-uses-the-pair', 'every numeric output field reads the selected info and every strategy field the selected strategies', m.where(bi), 'info: %s strategies: %s' % (uses_info, uses_strat))
     # ---------------- (4) same serialisation for both destinations
     rule = 'C16.same-serialisation'
